@@ -314,4 +314,474 @@ theorem uncommitted_invisible {s : St} (h : Inv s) {t : Txn} (hn : s.txn = some 
       have := (ha hfl).1
       rw [hn] at this; cases this
 
+/-! ### undo -/
+
+/-- A successful undo of transaction `utid` has, for EVERY record of that transaction, staged a
+    record under the undo transaction's tid that is a copy of the revision before `utid`; if that
+    revision is a blob revision, the file `(oid, undo tid)` holds exactly its bytes; if there is no
+    earlier revision (un-creation) or it is not a blob revision, there is no such file. -/
+theorem undo_restores_blob {s : St} (h : Inv s) {t : Txn} (hn : s.txn = some t) (utid : Nat)
+    (hok : (undo s utid).2.2 = .ok) :
+    ∃ t', (undo s utid).1.txn = some t' ∧ t'.tid = t.tid ∧
+      ∀ r ∈ s.hist, r.tid = utid → Restored s t t'.staged (undo s utid).1.files r := by
+  obtain ⟨fl, files, tmp, hist, txn, dirty, packedTo⟩ := s
+  simp only at hn
+  subst hn
+  cases fl with
+  | wrap => simp [undo] at hok
+  | fs =>
+    unfold undo at hok ⊢
+    simp only at hok ⊢
+    split at hok
+    · cases hok
+    · rename_i hc
+      rw [if_neg hc]
+      split at hok
+      · cases hok
+      · rename_i hc2
+        rw [if_neg hc2]
+        refine ⟨_, rfl, rfl, ?_⟩
+        intro r hr hrt
+        let s0 : St := { flavor := .fs, files := files, tmp := tmp, hist := hist, txn := some t,
+                         dirty := dirty, packedTo := packedTo }
+        have h0 : FInv s0 t (acc0 s0 t) := by
+          refine ⟨?_, fun _ _ => rfl⟩
+          refine h.congr rfl rfl rfl ?_ rfl
+          show some (accTxn t (acc0 s0 t)) = some t
+          simp [accTxn, acc0]
+        have hflags : ((List.foldl (undoOne hist t.tid) (acc0 s0 t) (txnRecs hist utid)).failures
+            || (List.foldl (undoOne hist t.tid) (acc0 s0 t) (txnRecs hist utid)).broken) = false := by
+          change (if (List.foldl (undoOne hist t.tid) (acc0 s0 t) (txnRecs hist utid)).broken = true
+            then Out.err Err.keyError
+            else if (List.foldl (undoOne hist t.tid) (acc0 s0 t) (txnRecs hist utid)).failures = true
+              then Out.err Err.undo else Out.ok) = Out.ok at hok
+          cases hb : (List.foldl (undoOne hist t.tid) (acc0 s0 t) (txnRecs hist utid)).broken
+          · cases hf : (List.foldl (undoOne hist t.tid) (acc0 s0 t) (txnRecs hist utid)).failures
+            · rfl
+            · rw [hb, hf] at hok; simp at hok
+          · rw [hb] at hok; simp at hok
+        have hmem : r ∈ txnRecs hist utid := by
+          unfold txnRecs
+          simp only [List.mem_reverse, List.mem_filter, decide_eq_true_eq]
+          exact ⟨hr, hrt⟩
+        exact undoFold_restored (s := s0) rfl (txnRecs hist utid) h0 hflags r hmem
+
+/-! ### pack -/
+
+theorem pack_files_sub (s : St) (T : Nat) (drop : List Key) (ko : Bool) (k : Key) :
+    aget (pack s T drop ko).1.files k = aget s.files k ∨ aget (pack s T drop ko).1.files k = none := by
+  unfold pack
+  cases s.flavor with
+  | fs =>
+    simp only
+    cases s.txn with
+    | some t => exact Or.inl rfl
+    | none =>
+      simp only
+      rw [aget_removeTagged]
+      split
+      · exact Or.inr rfl
+      · exact Or.inl rfl
+  | wrap =>
+    simp only
+    rw [aget_packNonUndoing]
+    split
+    · exact Or.inl rfl
+    · exact Or.inr rfl
+
+theorem pack_hist (s : St) (T : Nat) (drop : List Key) (ko : Bool) (hn : s.txn = none) :
+    (pack s T drop ko).1.hist = packHist T drop s.hist ∧ (pack s T drop ko).1.txn = none := by
+  unfold pack
+  cases s.flavor with
+  | fs => simp only; rw [hn]; exact ⟨rfl, rfl⟩
+  | wrap => exact ⟨rfl, hn⟩
+
+/-- pack removes precisely the files of the revisions it removes: the file of every blob revision
+    whose record is kept stays, with its bytes; every other file is gone; and the kept blob
+    revisions are the old ones minus those the base pack dropped (never one after the pack time). -/
+theorem pack_removes_exactly {s : St} (h : Inv s) (hn : s.txn = none) (T : Nat) (drop : List Key)
+    (ko : Bool) (ha : Admissible s (.pack T drop ko)) :
+    let s' := next s (.pack T drop ko)
+    (∀ k, BlobRecIn s'.hist k → aget s'.files k = aget s.files k ∧ (aget s.files k).isSome) ∧
+    (∀ k, ¬ BlobRecIn s'.hist k → aget s'.files k = none) ∧
+    (∀ k, BlobRecIn s'.hist k ↔ (BlobRecIn s.hist k ∧ ¬ (k ∈ drop ∧ k.2 ≤ T))) := by
+  intro s'
+  have hI' : Inv s' := inv_next h _ ha
+  obtain ⟨hh, ht⟩ := pack_hist s T drop ko hn
+  have hd' : s'.dirty = [] := hI'.dirty_nil ht
+  refine ⟨?_, ?_, ?_⟩
+  · intro k hb
+    have h1 : (aget s'.files k).isSome := (hI'.filesIff k).2 (Or.inl hb)
+    rcases pack_files_sub s T drop ko k with e | e
+    · have e' : aget s'.files k = aget s.files k := e
+      exact ⟨e', by rw [← e']; exact h1⟩
+    · have e' : aget s'.files k = none := e
+      rw [e'] at h1; cases h1
+  · intro k hb
+    cases hc : aget s'.files k with
+    | none => rfl
+    | some b =>
+      exfalso
+      have h1 : (aget s'.files k).isSome := by rw [hc]; rfl
+      rcases (hI'.filesIff k).1 h1 with hb' | hd
+      · exact hb hb'
+      · rw [hd'] at hd; cases hd
+  · intro k
+    have : s'.hist = packHist T drop s.hist := hh
+    rw [this, blobRecIn_packHist]
+    have hdk : dkey T drop k = false ↔ ¬ (k ∈ drop ∧ k.2 ≤ T) := by
+      unfold dkey
+      simp only [decide_eq_false_iff_not, List.contains_iff_mem]
+    rw [hdk]
+
+/-- the same for `_packUndoing` (wrapper over an undo-capable base storage): keep a file iff
+    `loadSerial` of its (oid, tid) still succeeds -/
+theorem packUndoing_removes_exactly {s : St} (h : Inv s) (hn : s.txn = none) (T : Nat)
+    (drop : List Key) :
+    let h' := packHist T drop s.hist
+    (∀ k, BlobRecIn h' k → aget (packUndoing s.files h') k = aget s.files k ∧ (aget s.files k).isSome) ∧
+    (∀ k, ¬ BlobRecIn h' k → aget (packUndoing s.files h') k = none) := by
+  intro h'
+  have hd := h.dirty_nil hn
+  have hfile : ∀ k, (aget s.files k).isSome ↔ BlobRecIn s.hist k := by
+    intro k; rw [h.filesIff k, hd]; simp
+  constructor
+  · intro k hb
+    rw [aget_packUndoing]
+    obtain ⟨r', hr', hk', hbk⟩ := hb
+    have : loadSerialOk h' k = true := loadSerialOk_iff.2 ⟨r', hr', hk', by rw [hbk]; simp⟩
+    simp only [this, if_true, true_and]
+    exact (hfile k).2 (blobRecIn_packHist.1 ⟨r', hr', hk', hbk⟩).1
+  · intro k hb
+    rw [aget_packUndoing]
+    split
+    · rename_i hc
+      obtain ⟨r', hr', hk', _⟩ := loadSerialOk_iff.1 hc
+      obtain ⟨r, hr, hdk, rfl⟩ := mem_packHist.1 hr'
+      rw [adj_key] at hk'
+      cases hf : aget s.files k with
+      | none => rfl
+      | some b =>
+        exfalso
+        have hb0 := (hfile k).1 (by rw [hf]; rfl)
+        exact hb (blobRecIn_packHist.2 ⟨hb0, by rw [← hk']; exact hdk⟩)
+    · rfl
+
+/-! ### raw events: committed files are never rewritten -/
+
+/-- what a raw file-system event of a step may be -/
+def EvOK (s : St) (o : Op) : Ev → Prop
+  | .create p => ∀ k, p ≠ .blob k
+  | .write p => ∀ k, p ≠ .blob k
+  | .link _ b => ∀ k, b ≠ .blob k
+  | .rename (.blob _) _ => ∃ T drop ko, o = .pack T drop ko
+  | .rename _ (.blob k) => ∃ t, s.txn = some t ∧ k.2 = t.tid
+  | .rename _ _ => True
+  | .remove (.blob k) => (o = .abort ∧ k ∈ s.dirty) ∨ ∃ T drop ko, o = .pack T drop ko
+  | .remove _ => True
+
+theorem blobTpcAbort_evs (fs : Files) (ks : List Key) :
+    ∀ ev ∈ (blobTpcAbort fs ks).2, ∃ k ∈ ks, ev = .remove (.blob k) := by
+  induction ks generalizing fs with
+  | nil => intro ev hev; simp [blobTpcAbort] at hev
+  | cons k0 ks ih =>
+    intro ev hev
+    simp only [blobTpcAbort] at hev
+    cases h0 : aget fs k0 with
+    | some b =>
+      simp only [h0, List.mem_cons] at hev
+      rcases hev with hev | hev
+      · exact ⟨k0, List.mem_cons_self, hev⟩
+      · obtain ⟨k, hk, he⟩ := ih _ ev hev
+        exact ⟨k, List.mem_cons_of_mem _ hk, he⟩
+    | none =>
+      simp only [h0] at hev
+      obtain ⟨k, hk, he⟩ := ih _ ev hev
+      exact ⟨k, List.mem_cons_of_mem _ hk, he⟩
+
+theorem removeTagged_evs (ko : Bool) (fs : Files) (ks : List Key) :
+    ∀ ev ∈ (removeTagged ko fs ks).2,
+      ∃ k, ev = .remove (.blob k) ∨ ev = .rename (.blob k) (.old k) := by
+  induction ks generalizing fs with
+  | nil => intro ev hev; simp [removeTagged] at hev
+  | cons k0 ks ih =>
+    intro ev hev
+    simp only [removeTagged] at hev
+    cases h0 : aget fs k0 with
+    | some b =>
+      simp only [h0, List.mem_cons] at hev
+      rcases hev with hev | hev
+      · refine ⟨k0, ?_⟩
+        cases ko
+        · left; simpa using hev
+        · right; simpa using hev
+      · exact ih _ ev hev
+    | none =>
+      simp only [h0] at hev
+      exact ih _ ev hev
+
+/-- No step creates, writes, truncates or links onto a committed-named path; a rename onto such a
+    path happens only inside a transaction and only onto a name carrying that transaction's tid
+    (no committed record has that tid: `Inv.fresh`); files leave the directory only by the abort of
+    their transaction or by a pack. -/
+theorem events_ok (s : St) (o : Op) : ∀ ev ∈ (step s o).2.1, EvOK s o ev := by
+  cases o with
+  | mkTemp n b =>
+    intro ev hev
+    simp only [step, mkTemp, List.mem_cons, List.not_mem_nil, or_false] at hev
+    rcases hev with rfl | rfl <;> intro k hk <;> cases hk
+  | begin tid =>
+    intro ev hev
+    simp only [step, begin] at hev
+    cases hn : s.txn with
+    | some t => simp [hn] at hev
+    | none => simp only [hn] at hev; split at hev <;> simp at hev
+  | store oid val base =>
+    intro ev hev
+    have := (store_facts s oid val base).2.2.2.1
+    simp only [step] at hev
+    rw [this] at hev; cases hev
+  | vote =>
+    intro ev hev
+    have := (vote_facts s).2.2.2.1
+    simp only [step] at hev
+    rw [this] at hev; cases hev
+  | finish =>
+    intro ev hev
+    simp only [step, finish] at hev
+    cases hn : s.txn with
+    | none => simp [hn] at hev
+    | some t => simp only [hn] at hev; split at hev <;> simp at hev
+  | foreignAbort => intro ev hev; simp [step, foreignAbort] at hev
+  | storeBlob oid n base =>
+    intro ev hev
+    cases hn : s.txn with
+    | none =>
+      have := ((storeBlob_facts s oid n base true).2.2 hn).2
+      simp only [step] at hev
+      rw [this] at hev; cases hev
+    | some t =>
+      have := ((storeBlob_facts s oid n base true).2.1 t hn).2.2 ev hev
+      rw [this]
+      exact ⟨t, hn, rfl⟩
+  | restoreBlob oid n =>
+    intro ev hev
+    cases hn : s.txn with
+    | none =>
+      have := ((storeBlob_facts s oid n 0 false).2.2 hn).2
+      simp only [step] at hev
+      rw [this] at hev; cases hev
+    | some t =>
+      have := ((storeBlob_facts s oid n 0 false).2.1 t hn).2.2 ev hev
+      rw [this]
+      exact ⟨t, hn, rfl⟩
+  | undo utid =>
+    intro ev hev
+    cases hn : s.txn with
+    | none =>
+      have := ((undo_facts s utid).2.2 hn).2
+      simp only [step] at hev
+      rw [this] at hev; cases hev
+    | some t =>
+      rcases ((undo_facts s utid).2.1 t hn).2.2 ev hev with e | e | ⟨oid, e⟩
+      · rw [e]; intro k hk; cases hk
+      · rw [e]; intro k hk; cases hk
+      · rw [e]; exact ⟨t, hn, rfl⟩
+  | abort =>
+    intro ev hev
+    simp only [step, abort] at hev
+    cases hn : s.txn with
+    | none => simp [hn] at hev
+    | some t =>
+      simp only [hn] at hev
+      obtain ⟨k, hk, he⟩ := blobTpcAbort_evs _ _ ev hev
+      rw [he]; exact Or.inl ⟨rfl, hk⟩
+  | pack T drop ko =>
+    intro ev hev
+    simp only [step, pack] at hev
+    cases hfl : s.flavor with
+    | fs =>
+      simp only [hfl] at hev
+      cases hn : s.txn with
+      | some t => simp [hn] at hev
+      | none =>
+        simp only [hn, List.mem_append] at hev
+        rcases hev with hev | hev
+        · obtain ⟨k, he | he⟩ := removeTagged_evs _ _ _ ev hev
+          · rw [he]; exact Or.inr ⟨T, drop, ko, rfl⟩
+          · rw [he]; exact ⟨T, drop, ko, rfl⟩
+        · unfold linkRest at hev
+          split at hev
+          · simp only [List.mem_map] at hev
+            obtain ⟨e, _, rfl⟩ := hev
+            intro k hk; cases hk
+          · cases hev
+    | wrap =>
+      simp only [hfl] at hev
+      unfold removedEvs at hev
+      simp only [List.mem_map] at hev
+      obtain ⟨e, _, rfl⟩ := hev
+      exact Or.inr ⟨T, drop, ko, rfl⟩
+
+/-! ### savepoints -/
+
+theorem idxGet_mem {ix : List (Nat × Nat)} {oid p : Nat} (h : idxGet ix oid = some p) :
+    (oid, p) ∈ ix := by
+  induction ix with
+  | nil => simp [idxGet] at h
+  | cons e t ih =>
+    obtain ⟨o, q⟩ := e
+    simp only [idxGet] at h
+    split at h
+    · rename_i ho; cases h; subst ho; exact List.mem_cons_self
+    · exact List.mem_cons_of_mem _ (ih h)
+
+/-- what stays fixed after a savepoint with write position `base` -/
+def TsFrame (base : Nat) (ts0 ts : TmpStore) : Prop :=
+  base ≤ ts.position ∧ ∀ oid p, p < base → aget ts.spFiles (oid, p) = aget ts0.spFiles (oid, p)
+
+theorem tsFrame_run (base : Nat) (ts0 ts : TmpStore) (h : TsFrame base ts0 ts) (ops : List TsOp)
+    (hv : ∀ o ∈ ops, TsOp.After base o) : TsFrame base ts0 (runTs ts ops) := by
+  induction ops generalizing ts with
+  | nil => exact h
+  | cons o os ih =>
+    apply ih _ _ (fun o' ho' => hv o' (List.mem_cons_of_mem _ ho'))
+    have ho := hv o List.mem_cons_self
+    cases o with
+    | store oid b len =>
+      refine ⟨by show base ≤ ts.position + len + 1; have := h.1; omega, ?_⟩
+      intro oid' p hp
+      show aget (aset ts.spFiles (oid, ts.position) b) (oid', p) = _
+      rw [aget_aset]
+      have : ((oid', p) : Nat × Nat) ≠ (oid, ts.position) := by
+        intro e; have := congrArg Prod.snd e; simp only at this; have := h.1; omega
+      simp only [this, if_false]
+      exact h.2 oid' p hp
+    | rollback st => exact ⟨ho, h.2⟩
+
+/-- Rolling back to a savepoint shows, for every blob, exactly the file that savepoint saw — no
+    matter which blobs later savepoints stored and which rollbacks to later savepoints happened in
+    between (repair 47a289a: savepoint blob files are named by record position). -/
+theorem savepoint_rollback_restores (ts : TmpStore) (hI : TsInv ts) (ops : List TsOp)
+    (hv : ∀ o ∈ ops, TsOp.After ts.position o) (oid : Nat) :
+    ((runTs ts ops).reset ts.state).loadBlob oid = ts.loadBlob oid := by
+  have hf := tsFrame_run ts.position ts ts ⟨Nat.le_refl _, fun _ _ _ => rfl⟩ ops hv
+  unfold TmpStore.loadBlob
+  show (match idxGet ts.index oid with
+        | none => none
+        | some p => aget (runTs ts ops).spFiles (oid, p)) = _
+  cases hp : idxGet ts.index oid with
+  | none => rfl
+  | some p =>
+    simp only
+    exact hf.2 oid p (hI (oid, p) (idxGet_mem hp))
+
+/-! ### every run on FileStorage is admissible -/
+
+theorem next_flavor (s : St) (o : Op) : (next s o).flavor = s.flavor := by
+  cases o with
+  | mkTemp n b => rfl
+  | foreignAbort => rfl
+  | begin tid =>
+    show (begin s tid).1.flavor = _
+    unfold begin
+    cases s.txn with
+    | some t => rfl
+    | none => simp only; split <;> rfl
+  | store oid val base =>
+    show (store s oid val base).1.flavor = _
+    unfold store
+    cases s.txn with
+    | none => rfl
+    | some t =>
+      simp only
+      split
+      · rfl
+      · split <;> rfl
+  | storeBlob oid n base =>
+    show (storeBlob s oid n base true).1.flavor = _
+    unfold storeBlob
+    cases s.txn with
+    | none => rfl
+    | some t =>
+      simp only
+      split
+      · rfl
+      · split
+        · rfl
+        · simp only [blobStoreBlob, setTxn]
+          cases aget s.tmp n <;> rfl
+  | restoreBlob oid n =>
+    show (storeBlob s oid n 0 false).1.flavor = _
+    unfold storeBlob
+    cases s.txn with
+    | none => rfl
+    | some t =>
+      simp only
+      split
+      · rfl
+      · split
+        · rfl
+        · simp only [blobStoreBlob, setTxn]
+          cases aget s.tmp n <;> rfl
+  | vote =>
+    show (vote s).1.flavor = _
+    unfold vote
+    cases s.txn with
+    | none => rfl
+    | some t => simp only; split <;> rfl
+  | finish =>
+    show (finish s).1.flavor = _
+    unfold finish
+    cases s.txn with
+    | none => rfl
+    | some t => simp only; split <;> rfl
+  | abort =>
+    show (abort s).1.flavor = _
+    unfold abort
+    cases s.txn <;> rfl
+  | undo utid =>
+    show (undo s utid).1.flavor = _
+    unfold undo
+    cases hfl : s.flavor with
+    | wrap => exact hfl
+    | fs =>
+      simp only
+      cases s.txn with
+      | none => exact hfl
+      | some t =>
+        simp only
+        split
+        · exact hfl
+        · split <;> first | exact hfl | rfl
+  | pack T drop ko =>
+    show (pack s T drop ko).1.flavor = _
+    unfold pack
+    cases hfl : s.flavor with
+    | fs =>
+      simp only
+      cases s.txn with
+      | some t => exact hfl
+      | none => rfl
+    | wrap => rfl
+
+theorem run_flavor (s : St) (ops : List Op) : (run s ops).flavor = s.flavor := by
+  induction ops generalizing s with
+  | nil => rfl
+  | cons o os ih => rw [show run s (o :: os) = run (next s o) os from rfl, ih, next_flavor]
+
+theorem reach_run_of {s : St} (hr : Reach s) (hfs : s.flavor = .fs) (ops : List Op) :
+    Reach (run s ops) := by
+  induction ops generalizing s with
+  | nil => exact hr
+  | cons o os ih =>
+    apply ih
+    · refine Reach.step o hr ?_
+      cases o <;> first | trivial | (intro hw; rw [hfs] at hw; cases hw)
+    · rw [next_flavor]; exact hfs
+
+/-- on FileStorage every operation sequence is a history the theorems cover -/
+theorem reach_run_fs (ops : List Op) : Reach (run (init .fs) ops) :=
+  reach_run_of (Reach.init .fs) rfl ops
+
 end Proofs.Blob
